@@ -6,7 +6,7 @@ import random
 import subprocess
 
 DIRNAMES = ["docs", "src", "a", "b", "d1", "d2", "sub dir", ".hidden", "drafts", "guide"]
-EXCLUDED_DIRNAMES = ["node_modules", "build", ".venv", "x.egg-info", "vendor", "__pycache__", ".git"]
+EXCLUDED_DIRNAMES = ["node_modules", "build", ".venv", "x.egg-info", "vendor", "__pycache__", ".hg"]
 FILENAMES = ["a.md", "b.md", "c.md", "README.md", "x.mdx", "n.txt", ".dot.md", "sp ace.md", "UP.MD", "d.md", "ch#1.md", "x#.md"]
 GIT_ENV = dict(os.environ, GIT_CONFIG_GLOBAL="/dev/null", GIT_CONFIG_NOSYSTEM="1", HOME="/nonexistent", GIT_CEILING_DIRECTORIES="/tmp")
 
